@@ -116,7 +116,7 @@ struct Env {
     bool inAckOp = false;
     long curH = 0;
     std::string history;
-    int smIds = 0;
+    std::string trace;  // op => observation, for the evidence samples
 
     QXmpp::Private::StreamAckManager &sam() { return c->streamAckManager(); }
 
@@ -225,7 +225,9 @@ struct Env {
     {
         history += op + ";";
         stat("op_" + op.substr(0, op.find(' ')));
-        corr(op, flushObs());
+        std::string o = flushObs();
+        if (trace.size() < 560) trace += op + " => " + o + " ; ";
+        corr(op, o);
     }
     void inject(const QDomDocument &d) { TestClient::received(c, d.documentElement()); }
     long resolveH(HMode m) const { return m == HExact ? myLastOut : m == HStale ? (myLastOut > 0 ? myLastOut - 1 : 0) : myLastOut + 1; }
@@ -392,23 +394,29 @@ struct Env {
     }
 };
 
-static void runSeq(const std::vector<std::string> &syms)
+static void runSeq(const std::vector<std::string> &syms, bool asSample = false)
 {
     corr("reset", "ok");
     {
         Env env;
         for (auto &s : syms) env.apply(s);
+        if (asSample) {
+            std::string t = "symbols [";
+            for (auto &s : syms) t += s + " ";
+            sample(t + "] resolved ops and observations: " + env.trace);
+        }
     }
     stat("sequences");
 }
 
-static long long enumerate(const std::vector<std::string> &alpha, int depth)
+static long long enumerate(const std::vector<std::string> &alpha, int depth, const std::vector<std::string> &prefix = {})
 {
     std::vector<size_t> idx(depth, 0);
-    std::vector<std::string> cur(depth);
+    std::vector<std::string> cur(prefix.size() + depth);
+    for (size_t i = 0; i < prefix.size(); i++) cur[i] = prefix[i];
     long long n = 0;
     for (;;) {
-        for (int i = 0; i < depth; i++) cur[i] = alpha[idx[i]];
+        for (int i = 0; i < depth; i++) cur[prefix.size() + i] = alpha[idx[i]];
         runSeq(cur);
         n++;
         int k = depth - 1;
@@ -427,9 +435,9 @@ int main(int argc, char **argv)
     bool thorough = a.tier == "thorough";
 
     // corpus first: the witness of the recorded finding and a few hand-picked histories
-    runSeq({ "E", "N", "m", "R=" });                      // h of <resume/> counts a stanza received on a session without SM
+    runSeq({ "E", "N", "m", "R=" }, true);                // h of <resume/> counts a stanza received on a session without SM
     runSeq({ "E", "F", "p", "i", "q", "R-", "q" });
-    runSeq({ "E", "s", "s", "s", "a-", "L", "s", "R-", "a=" });
+    runSeq({ "E", "s", "s", "s", "a-", "L", "s", "R-", "a=" }, true);
     runSeq({ "E", "s", "d", "s", "L", "E", "a-", "a=" });
     runSeq({ "s", "E", "s", "n", "a+", "s", "C", "a=" });
     runSeq({ "E", "s", "s", "R+", "s", "R=", "L", "a=", "m", "q" });
@@ -446,9 +454,12 @@ int main(int argc, char **argv)
         stat("exh_core7_depth7", enumerate(core7, 7));
         stat("exh_core9_depth6", enumerate(core9, 6));
         stat("exh_wide19_depth4", enumerate(wide, 4));
+        // from a session that already holds two stored stanzas (the second one with a failed write)
+        stat("exh_prefixEsd_core9_depth6", enumerate(core9, 6, { "E", "s", "d" }));
     } else {
         stat("exh_core9_depth5", enumerate(core9, 5));
         stat("exh_wide19_depth3", enumerate(wide, 3));
+        stat("exh_prefixEsd_core9_depth5", enumerate(core9, 5, { "E", "s", "d" }));
     }
 
     // seeded random histories up to 60 symbols, including failed writes during every kind of operation
@@ -460,8 +471,7 @@ int main(int argc, char **argv)
         int len = 1 + rng.below(60);
         std::vector<std::string> syms;
         for (int j = 0; j < len; j++) syms.push_back(rnd[rng.below(rnd.size())]);
-        if (i < 3) { std::string s; for (auto &o : syms) s += o + " "; sample("random history (symbols): " + s); }
-        runSeq(syms);
+        runSeq(syms, i < 3 && len < 25);
     }
     stat("random_sequences", nrand);
     finish();
